@@ -629,6 +629,11 @@ impl<'a> Tr<'a> {
             };
             return Ok(Out { pre: a.pre, term, ty, diverges: false });
         }
+        // PatternNorm::new(p): the pattern normalised to its bytes (patterns are modelled as their bytes)
+        if last == "new" && prev.as_deref() == Some("PatternNorm") && c.args.len() == 1 {
+            let a = self.expr(&c.args[0], Some(&Ty::Slice(Box::new(Ty::Int(IntTy::U8)))))?;
+            return Ok(a);
+        }
         // panics
         if segs.iter().any(|s| s == "panicking") || matches!(last.as_str(), "panic" | "panic_fmt" | "panic_display" | "panic_explicit" | "unreachable_display" | "concat_panic") {
             return Ok(Out { pre: vec![], term: "Ctl.panic".into(), ty: Ty::Never, diverges: true });
@@ -668,7 +673,8 @@ impl<'a> Tr<'a> {
             return Ok(Out { pre, term: t, ty: Ty::Char, diverges: false });
         }
         // registered function
-        if let Some(fi) = resolve_fn(self.idx, self.reg, self.cur, prev.as_deref(), &last, false) {
+        let quals: Vec<String> = segs[..segs.len().saturating_sub(1)].to_vec();
+        if let Some(fi) = resolve_fn_q(self.idx, self.reg, self.cur, prev.as_deref(), &last, false, &quals) {
             let turbofish: Vec<String> = match &p.path.segments.last().unwrap().arguments {
                 syn::PathArguments::AngleBracketed(a) => a
                     .args
@@ -744,8 +750,10 @@ impl<'a> Tr<'a> {
         // callee signature types, with the callee's generics instantiated by fresh variables
         let saved_gen = std::mem::take(&mut self.generics);
         let saved_cur = self.cur;
-        let callee_gen: Vec<String> = callee.sig.generics.type_params().map(|p| p.ident.to_string()).collect();
+        let callee_pat = pattern_generics(&callee.sig.generics);
+        let callee_gen: Vec<String> = callee.sig.generics.type_params().map(|p| p.ident.to_string()).filter(|g| !callee_pat.contains(g)).collect();
         self.generics = callee_gen.clone();
+        let saved_pat = std::mem::replace(&mut self.pattern_generics, callee_pat);
         // SAFETY of lifetimes: `callee` is a clone living in this frame; conv_ty only reads self.cur.self_ty/module
         let callee_ref: &FnEntry = unsafe { &*(&callee as *const FnEntry) };
         self.cur = unsafe { std::mem::transmute::<&FnEntry, &'a FnEntry>(callee_ref) };
@@ -766,6 +774,7 @@ impl<'a> Tr<'a> {
         let self_ty = callee.self_ty.clone();
         self.cur = saved_cur;
         self.generics = saved_gen;
+        self.pattern_generics = saved_pat;
         let mut map: HashMap<String, Ty> = HashMap::new();
         for g in &callee_gen {
             map.insert(g.clone(), self.sub.fresh());
